@@ -109,6 +109,13 @@ theorem c04_findLIDs_in_table (t : List ID) (hd : Desc t) (hne : 2 ≤ t.length)
 theorem c04_indexFetch_eq_map (bits : Nat) (readDoc : Nat → Nat → D) (ps : List Nat) :
     indexFetch bits readDoc ps = ps.map (posDoc bits readDoc) := indexFetch_spec bits readDoc ps
 
+/-- **reading the requested documents of one block in steps changes nothing**: for every step size >= 1 the stepwise
+read (each step stores every document at the destination that belongs to its offset) equals the single read of
+`IndexFetch`; so any batched implementation must advance offsets and destinations together -/
+theorem c04_block_read_batching_independent (readDoc : Nat → Nat → D) (n : Nat) (hn : 1 ≤ n) (res : List (Option D))
+    (g : Group) : scatterGroupBatched readDoc n res g = scatterGroup readDoc res g :=
+  scatterGroupBatched_eq readDoc n hn res g
+
 /-- a sealed fraction (strictly descending ID table behind the system ID, range filters accepting its own IDs)
 satisfies the hypotheses of the theorems above -/
 theorem c04_sealed_wf (bits : Nat) (P : Frac D → ID → Nat) (name : Nat) (contains : Nat → Bool)
@@ -311,6 +318,13 @@ theorem c04_x_filter_state_per_request :
     acquireFilterStmts = ["dp := docFieldsFilterPool.Get().(*docFieldsFilter)",
       "if dp.decoder == nil { dp.decoder = insaneJSON.Spawn() }", "dp.filter = filter", "return dp"] ∧
     releaseFilterStmts = ["dp.filter = nil", "docFieldsFilterPool.Put(dp)"] := by decide
+
+/-- `IndexFetch` reads every block with ONE `ReadDocs` over all its requested offsets and stores `docs[src]` at
+`index[i][src]` - the loop `scatterGroup` models -/
+theorem c04_x_indexFetch_loop :
+    indexFetchLoop = ["for i, docOffsets := range offsets",
+      "docs, err := fetchIndex.ReadDocs(fetchIndex.GetBlocksOffsets(blocks[i]), docOffsets)", "if err != nil { return err }",
+      "for src, dst := range index[i] { res[dst] = docs[src] }"] := by decide
 
 /-- position packing at the extracted `docOffsetBits`: every (block, offset) the writer can produce is read back,
 and never collides with `DocPosNotFound` -/
